@@ -29,6 +29,18 @@ func checkTermination(r *Run, w *cliWorld, faultFired string, faultStatus int, c
 	// the injected fault's error must be the one surfaced, unless something else ended the client first
 	// (an error of another stream that occurred strictly before the faulty response reached the client)
 	faultFirst := true
+	// a playlist answered at the very instant of Wait's value may have ended the client on its own account
+	// (live edge: next segment not listed yet); two errors of one instant race inside the client
+	if w.waitSeen && w.waitErr != nil {
+		switch w.waitErr.Error() {
+		case "next segment not found or not ready yet", "playback is too late", "there aren't enough segments to fill the buffer":
+			for _, nr := range w.net.log {
+				if nr.delivered && nr.fate.fault == "" && strings.Contains(nr.url, ".m3u8") && nr.deliveredAt == w.waitAt {
+					faultFirst = false
+				}
+			}
+		}
+	}
 	for _, nr := range w.net.log {
 		if nr.fate != nil && nr.fate.fault != "" && (!nr.delivered || nr.deliveredAt >= w.waitAt && w.waitSeen && nr.deliveredAt > w.waitAt) {
 			faultFirst = false
